@@ -118,6 +118,9 @@ def instances(kind, cfg, n_inst, seed):
                 gs.append(p[int(rng.integers(len(p)))])
             stepsize = float(rng.uniform(0.5, 2.0))
             inner = [float(0.9 / np.linalg.norm(Li.matrix, 2) ** 2) for Li in Ls]
+            if cfg.get('inner') == 'elem':
+                # pointwise inner step sizes given as range elements (caller-owned arrays)
+                inner = [Yi.element(s_ * rng.uniform(0.5, 1.0, Yi.size)) for s_, Yi in zip(inner, Ys)]
             rnd = bool(cfg.get('random'))
 
             def check(gs=gs, Ls=Ls, x0=x0, stepsize=stepsize, inner=inner, rnd=rnd):
@@ -125,8 +128,12 @@ def instances(kind, cfg, n_inst, seed):
                     xa, xb = x0.copy(), x0.copy()
                     rec = Rec()
                     np.random.seed(7)
+                    inner0 = [i_.copy() if hasattr(i_, 'copy') else i_ for i_ in inner]
                     S.adupdates(xa, [g_ for _, g_ in gs], Ls, stepsize, inner, niter, random=rnd, callback=rec,
                                 callback_loop=cfg.get('callback_loop', 'outer'))
+                    for i_, j_ in zip(inner, inner0):
+                        if hasattr(i_, 'copy') and (i_ - j_).norm() != 0:
+                            return 'adupdates modified the caller\'s inner_stepsizes: %r, was %r' % (i_, j_)
                     np.random.seed(7)
                     adupdates_simple(xb, [g_ for _, g_ in gs], Ls, stepsize, inner, niter, random=rnd)
                     exp = niter * (len(Ls) if cfg.get('callback_loop') == 'inner' else 1)
